@@ -373,6 +373,12 @@ func (s *serverSocket) onClose(reason Reason) {
 			return
 		}
 
+		// The connection handlers run on their own goroutine and usually register the
+		// disconnect handlers. When the socket is closed right after it was admitted, give
+		// them a moment to return, so that those handlers are not missed. (Bounded: a
+		// connection handler may itself be the caller, or may block.)
+		s.connectionSlot.waitFor(100 * time.Millisecond)
+
 		wg := utils.NewTimeoutWaiter(0)
 		s.disconnectingHandlers.forEach(func(handler *ServerSocketDisconnectingFunc) {
 			wg.Add(1)
